@@ -17,6 +17,15 @@
 //	    observation = <status>/<link hex | ->/commit=<0|1 committer invoked>/<x committed bytes | ->/
 //	                  cl:<status of ComputeLink on the same input>:<its link | ->
 //
+//	id, "reify", form (l|p|f), trusted, rmode (id = the NodeReifier returns the node | fail = it
+//	    returns an error), parent link, parent stream, parent tail, children, tables, observation
+//	    A NodeReifier is configured.  It records the *LinkSystem it is handed, loads the child links
+//	    through it at once ("now" form) and the harness loads them again through the same handle
+//	    after the outer call returned ("later" form).
+//	    children = ";"-separated <child link>~<stream the storage serves>~<tail>~<now form|->~<later form|->
+//	    observation = <outer status/node/raw>;inv=<0|1 reifier invoked>,ht=<TrustedStorage of the
+//	    handle it got | ->;<child 1 now>;<child 1 later>;... (each status/node/raw, or - if not made)
+//
 // tables: as in c05 (K<mhtype>=0|1 hasher registered, H<mhtype>.<data>=<digest>, E.., D..).
 package main
 
@@ -109,6 +118,219 @@ func loadCase(out *lib.Out, id string, form byte, trusted bool, linkBin string, 
 	}
 	obs := lib.LkErrClass(err, "decode") + "/" + ns + "/" + rs
 	out.Case(id, "load", string(form), b2s(trusted), lib.Hex(linkBin), stream, tail, tab.Text(), obs)
+}
+
+// ---- NodeReifier scenarios
+
+type kid struct {
+	link       string
+	chunks     [][]byte
+	tail       string
+	now, later byte // load form, or '-'
+}
+
+func loadVia(lsys *linking.LinkSystem, form byte, l datamodel.Link) string {
+	var n datamodel.Node
+	var raw []byte
+	rawReturned := false
+	err := lib.Safely(func() error {
+		var e error
+		switch form {
+		case 'l':
+			n, e = lsys.Load(linking.LinkContext{}, l, basicnode.Prototype.Any)
+		case 'f':
+			nb := basicnode.Prototype.Any.NewBuilder()
+			e = lsys.Fill(linking.LinkContext{}, l, nb)
+			if e == nil {
+				n = nb.Build()
+			}
+		case 'r':
+			raw, e = lsys.LoadRaw(linking.LinkContext{}, l)
+			rawReturned = e == nil || len(raw) > 0
+		case 'p':
+			n, raw, e = lsys.LoadPlusRaw(linking.LinkContext{}, l, basicnode.Prototype.Any)
+			rawReturned = e == nil || len(raw) > 0
+		}
+		return e
+	})
+	if lib.IsPanic(err) {
+		n, raw, rawReturned = nil, nil, false
+	}
+	ns, rs := "-", "-"
+	if n != nil {
+		ns = lib.Dump(n)
+	}
+	if rawReturned {
+		rs = "x" + lib.Hex(string(raw))
+	}
+	return lib.LkErrClass(err, "decode") + "/" + ns + "/" + rs
+}
+
+func reifyCase(out *lib.Out, id string, form byte, trusted bool, rmode string, plink string, pchunks [][]byte, ptail string, kids []kid) {
+	pl, err := lib.LkLinkFromBinary(plink)
+	if err != nil {
+		return
+	}
+	tab := lib.NewLkTables()
+	type served struct {
+		chunks [][]byte
+		tail   string
+	}
+	store := map[string]served{plink: {pchunks, ptail}}
+	for _, k := range kids {
+		store[k.link] = served{k.chunks, k.tail}
+	}
+	for lb, sv := range store {
+		l, err := lib.LkLinkFromBinary(lb)
+		if err != nil {
+			return
+		}
+		pfx := l.(cidlink.Link).Prefix()
+		var data []byte
+		for _, c := range sv.chunks {
+			data = append(data, c...)
+		}
+		tab.Hasher(pfx.MhType)
+		tab.Hash(pfx.MhType, data)
+		if impl, ok := lib.LkGlobalReg().Dec[pfx.Codec]; ok {
+			tab.Decode(impl, data)
+		}
+	}
+	lsys := cidlink.DefaultLinkSystem()
+	lsys.TrustedStorage = trusted
+	lsys.StorageReadOpener = func(_ linking.LinkContext, l datamodel.Link) (io.Reader, error) {
+		sv, ok := store[l.Binary()]
+		if !ok || sv.tail == "open" {
+			return nil, lib.LkErrOpen
+		}
+		cp := make([][]byte, len(sv.chunks))
+		for i, c := range sv.chunks {
+			cp[i] = append([]byte(nil), c...)
+		}
+		return &lib.LkReader{Chunks: cp, Fail: sv.tail == "err", EOFWithLast: sv.tail == "eofl"}, nil
+	}
+	var got *linking.LinkSystem // the handle the library handed to the reifier (outermost invocation)
+	depth := 0
+	nowObs := make([]string, len(kids))
+	for i := range nowObs {
+		nowObs[i] = "-"
+	}
+	lsys.NodeReifier = func(_ linking.LinkContext, n datamodel.Node, ls *linking.LinkSystem) (datamodel.Node, error) {
+		if depth > 0 { // a load made by the reifier itself: leave the node alone
+			return n, nil
+		}
+		depth++
+		defer func() { depth-- }()
+		got = ls
+		for i, k := range kids {
+			if k.now != '-' {
+				cl, _ := lib.LkLinkFromBinary(k.link)
+				nowObs[i] = loadVia(ls, k.now, cl)
+			}
+		}
+		if rmode == "fail" {
+			return nil, lib.LkErrReify
+		}
+		return n, nil
+	}
+	outer := loadVia(&lsys, form, pl)
+	meta := "inv=0,ht=-"
+	if got != nil {
+		meta = "inv=1,ht=" + b2s(got.TrustedStorage)
+	}
+	obs := []string{outer, meta}
+	for i, k := range kids {
+		later := "-"
+		if got != nil && k.later != '-' {
+			cl, _ := lib.LkLinkFromBinary(k.link)
+			depth = 1 // loads after the outer call: the handle's own reifier stays out of the way
+			later = loadVia(got, k.later, cl)
+			depth = 0
+		}
+		obs = append(obs, nowObs[i], later)
+	}
+	var ks []string
+	for _, k := range kids {
+		ks = append(ks, fmt.Sprintf("%s~%s~%s~%c~%c", lib.Hex(k.link), lib.LkChunksText(k.chunks), k.tail, k.now, k.later))
+	}
+	out.Case(id, "reify", string(form), b2s(trusted), rmode, lib.Hex(plink), lib.LkChunksText(pchunks), ptail,
+		strings.Join(ks, ";"), tab.Text(), strings.Join(obs, ";"))
+}
+
+// reifyCases: an intact (or damaged) dag-cbor parent holding links to children whose blocks the
+// storage serves clean, bit-flipped, truncated, extended, substituted, missing or behind a read error.
+func reifyCases(out *lib.Out, r *lib.Rng, gi int, children []*block, thorough bool) {
+	k := 0
+	id := func(kind string) string { k++; return fmt.Sprintf("g%d.%s%d", gi, kind, k) }
+	var links []*lib.Val
+	for _, c := range children {
+		links = append(links, lib.Link(c.link))
+	}
+	pv := lib.Map(lib.Entry{K: "kids", V: lib.List(links...)}, lib.Entry{K: "n", V: lib.Int(int64(gi))})
+	pb := mkBlock(lib.LkProto{Version: 1, Codec: lib.LkDagCbor, MhType: 0x12, MhLen: -1}, pv)
+	if pb == nil {
+		return
+	}
+	one := func(d []byte) [][]byte { return lib.LkSplit(d) }
+	damage := func(c *block, how int) ([][]byte, string) {
+		d := append([]byte(nil), c.data...)
+		switch how {
+		case 0:
+			return one(d), "eof"
+		case 1:
+			if len(d) > 0 {
+				d[r.Intn(len(d))] ^= 1 << uint(r.Intn(8))
+			}
+			return one(d), "eof"
+		case 2:
+			return one(d[:len(d)/2]), "eof"
+		case 3:
+			return one(append(d, 0x00)), "eof"
+		case 4:
+			o := children[r.Intn(len(children))]
+			return one(o.data), "eof" // another child's block
+		case 5:
+			return one(d[:len(d)/2]), "err"
+		case 6:
+			return nil, "open"
+		}
+		return lib.LkSplit(d, len(d)/2), "eofl"
+	}
+	forms := []byte("lrpf")
+	// every outer form x trust x reifier mode, children damaged every way, loaded now and later
+	// through every load function
+	for _, of := range []byte("lpf") {
+		for _, trusted := range []bool{false, true} {
+			for _, rmode := range []string{"id", "fail"} {
+				for how := 0; how < 8; how++ {
+					var ks []kid
+					for i, c := range children {
+						ch, tl := damage(c, (how+i)%8)
+						ks = append(ks, kid{c.link, ch, tl, forms[(i+how)%4], forms[(i+how+1+int(of))%4]})
+					}
+					reifyCase(out, id("re"), of, trusted, rmode, pb.link, one(pb.data), "eof", ks)
+				}
+			}
+		}
+		// the parent itself damaged: the reifier must not even be invoked
+		bad := append([]byte(nil), pb.data...)
+		bad[len(bad)-1] ^= 4
+		var ks []kid
+		for _, c := range children {
+			ks = append(ks, kid{c.link, one(c.data), "eof", 'l', 'f'})
+		}
+		reifyCase(out, id("rebad"), of, false, "id", pb.link, one(bad), "eof", ks)
+		reifyCase(out, id("reerr"), of, false, "id", pb.link, one(pb.data[:3]), "err", ks)
+	}
+	// every child form, now and later, for each single kind of damage
+	for how := 1; how < 7; how++ {
+		for _, cf := range forms {
+			c := children[r.Intn(len(children))]
+			ch, tl := damage(c, how)
+			reifyCase(out, id("re1"), 'p', false, "id", pb.link, one(pb.data), "eof", []kid{{c.link, ch, tl, cf, cf}})
+			reifyCase(out, id("re1"), 'l', false, "id", pb.link, one(pb.data), "eof", []kid{{c.link, ch, tl, '-', cf}})
+		}
+	}
 }
 
 // ---- store cases
@@ -472,6 +694,18 @@ func main() {
 			switch {
 			case len(f) >= 8 && f[1] == "load":
 				loadCase(out, f[0], f[2][0], f[3] == "1", lib.UnHex(f[4]), lib.LkParseChunks(f[5]), f[6])
+			case len(f) >= 10 && f[1] == "reify":
+				var ks []kid
+				if f[8] != "" {
+					for _, c := range strings.Split(f[8], ";") {
+						g := strings.Split(c, "~")
+						if len(g) != 5 {
+							panic("bad child " + c)
+						}
+						ks = append(ks, kid{lib.UnHex(g[0]), lib.LkParseChunks(g[1]), g[2], g[3][0], g[4][0]})
+					}
+				}
+				reifyCase(out, f[0], f[2][0], f[3] == "1", f[4], lib.UnHex(f[5]), lib.LkParseChunks(f[6]), f[7], ks)
 			case len(f) >= 10 && f[1] == "store":
 				p, err := lib.LkParseProto(f[2])
 				if err != nil {
@@ -572,6 +806,10 @@ func main() {
 	long := "\x01\x71\x12\x28" + strings.Repeat("d", 40)
 	for _, f := range forms {
 		loadCase(out, fmt.Sprintf("longdigest.%c", f), f, false, long, lib.LkSplit([]byte{0x01}), "eof")
+	}
+	// NodeReifier scenarios: parents linking to groups of corpus blocks
+	for gi := 0; gi+3 <= len(blocks) && gi < 3*12; gi += 3 {
+		reifyCases(out, r.Fork(), gi/3, blocks[gi:gi+3], thorough)
 	}
 	for bi, b := range blocks {
 		faultCases(out, r.Fork(), bi, b, blocks, thorough)
